@@ -50,6 +50,7 @@ func init() {
 			{ID: "R04y", Floor: 3, Doc: "a stored block is read back in full, empty blocks included: no single Read where the pinned tree has none (= R02q)", Run: ruleR02q},
 			{ID: "R04z", Floor: 2, Doc: "concurrent Roots calls do not share a cursor: each reads through its own offset reader (= R07q)", Run: ruleR07q},
 			{ID: "R04A", Floor: 2, Doc: "a key is indexed only once its section has been handed to the file: write, then index, per block (= R06a)", Run: ruleR06a},
+			{ID: "R04B", Floor: 1, Doc: "PutMany asks the gate for every block of the batch: no round of the loop over the batch reaches the next round without passing store.ShouldPut — a shortcut in front of it (a batch-local set of keys already seen) decides by its own key, which is not the key the options ask for", Run: ruleR04B},
 		},
 	})
 }
@@ -987,12 +988,32 @@ func ruleR04j(c *Ctx, r *Report) {
 				return
 			}
 			fa, ok := st.Addr.(*ssa.FieldAddr)
-			if !ok || !isNamed(derefType(fa.X.Type()), modV2, "Options") {
+			rootOpts := ok && isNamed(derefType(fa.X.Type()), modRoot, "options")
+			if !ok || !isNamed(derefType(fa.X.Type()), modV2, "Options") && !rootOpts {
 				return
 			}
 			n++
 			root := rootFuncOf(fn)
 			okSite := false
+			if rootOpts {
+				// the root module: the literal in applyOptions, and the closures its option constructors return
+				if o, isF := root.Object().(*types.Func); isF {
+					if funcIs(o, modRoot, "", "applyOptions") {
+						okSite = true
+					}
+					sig := o.Type().(*types.Signature)
+					if sig.Results().Len() == 1 {
+						if nt := namedOf(sig.Results().At(0).Type()); nt != nil && nt.Obj().Pkg() != nil && nt.Obj().Pkg().Path() == modRoot && nt.Obj().Name() == "Option" {
+							okSite = fn.Parent() != nil
+						}
+					}
+				}
+				if !okSite {
+					fv := fieldVar(fa.X.Type(), fa.Field)
+					bad = append(bad, fmt.Sprintf("%s assigns options.%s of the root module at %s", fnKey(fn), fv.Name(), c.Pos(st.Pos())))
+				}
+				return
+			}
 			if g, isG := fa.X.(*ssa.Global); isG && globalFieldInit[g] != nil {
 				okSite = true // the literal of a package-level value that nothing writes afterwards
 			}
@@ -1078,4 +1099,27 @@ func ruleR04m(c *Ctx, r *Report) {
 		bad = "the keys are not taken from the insertion index (no ForEachCid)"
 	}
 	r.Check(bad == "", key, c.Pos(fn.Pos()), "keys enumerated from the index", bad)
+}
+
+// ---- R04B: every block of a batch passes the gate ---------------------------------------------------
+
+func ruleR04B(c *Ctx, r *Report) {
+	fn, err := c.Func(pkgBS, "ReadWrite", "PutMany")
+	if err != nil {
+		r.InfraFail("%v", err)
+		return
+	}
+	key := "every-block-gated@" + fnKey(fn)
+	gates := callsToFunc(fn, pkgStore, "", "ShouldPut")
+	r.Count("calls of store.ShouldPut in PutMany", len(gates))
+	if len(gates) != 1 {
+		r.Undec(key, c.Pos(fn.Pos()), fmt.Sprintf("expected one call of store.ShouldPut in PutMany, found %d", len(gates)))
+		return
+	}
+	head, skips, _ := roundWithout(gates[0])
+	if head == nil {
+		r.Undec(key, c.Pos(gates[0].Pos()), "store.ShouldPut does not stand in a loop: how the batch is enumerated is not recognised")
+		return
+	}
+	r.Check(!skips, key, c.Pos(gates[0].Pos()), "every round of the loop over the batch passes store.ShouldPut or leaves the function", "a round of the loop over the batch can reach the next round without store.ShouldPut (a `continue` in front of it): a block of the batch is left out by a test that is not the gate's — two blocks with one multihash and different codecs are one block to a set keyed by the hash and two blocks to a store opened with UseWholeCIDs; PutMany returns nil and the second is in neither the file nor the index")
 }
